@@ -4,10 +4,12 @@
 From Coq Require Extraction.
 From Coq Require Import ExtrOcamlBasic.
 From CP Require Import Bytes Runtime TimePb Schema Codec Decode WF RefSpec.
+From CP Require Import AnyUtil.
 Extraction Language OCaml.
 Extraction "model.ml"
   Bytes.enc_varint Bytes.dec_varint Bytes.n2b Bytes.b2n
   Runtime.Sov Runtime.Soz Runtime.protowire_size Runtime.EncodeVarint Runtime.Skip
   TimePb.TsAdd TimePb.TsAddStd TimePb.TsCompare
   Codec.pulsar_marshal Codec.msg_size Codec.emit Codec.key_ltb Decode.pulsar_unmarshal Decode.empty_msg
-  WF.wf WF.wt_msg RefSpec.ref_marshal RefSpec.canon RefSpec.strip_unknown RefSpec.norm.
+  WF.wf WF.wt_msg RefSpec.ref_marshal RefSpec.canon RefSpec.strip_unknown RefSpec.norm
+  AnyUtil.marshal_from AnyUtil.new_any AnyUtil.pack AnyUtil.unpack_gen AnyUtil.unpack AnyUtil.lookup AnyUtil.after_last_slash AnyUtil.trim_prefix_slash AnyUtil.message_is.
